@@ -314,6 +314,7 @@ func ruleLDR16(c *Ctx) {
 			}
 		}
 	}
+	ldr16IndexSearch(c)
 	ldr16TwoStage(c)
 }
 
@@ -876,4 +877,42 @@ func edgesDominateFrom(fn *ssa.Function, from ssa.Instruction, to *ssa.BasicBloc
 
 func constantToInt64(v constant.Value) (int64, bool) {
 	return constant.Int64Val(constant.ToInt(v))
+}
+
+
+// ldr16IndexSearch (D43, known finding): WorkingMemory.IndexVariables decides "node X depends on variable V" by searching
+// V's snapshot text in X's, for every variable and every node of the registry. With n variables whose texts are as long
+// as the nesting is deep (a[a[a[…]]]) that is n * 2n searches over texts of length n: the third mechanism that makes the
+// build cubic, and the one that is left (a 3 KB text of 1000 nested selectors: 37 s, of which over 90 % here). The
+// obligation fails while the index is built by such an all-pairs text search (a strings.Contains of two registry keys
+// inside a loop over one registry nested in a loop over another).
+func ldr16IndexSearch(c *Ctx) {
+	p := c.P
+	fn := p.Method("ast", "WorkingMemory", "IndexVariables")
+	if fn == nil {
+		c.AnchorLost("(*ast.WorkingMemory).IndexVariables")
+		return
+	}
+	loops := naturalLoops(fn)
+	allPairs := ""
+	for _, ci := range callsIn(fn) {
+		if calleeName(ci) != "strings.Contains" {
+			continue
+		}
+		in := ci.(ssa.Instruction)
+		depth := 0
+		for _, l := range loops {
+			if l.Blocks[in.Block()] {
+				if x := rangeOperand(l); x != nil {
+					if f, _ := fieldLoad(x); f != nil && strings.HasSuffix(f.Name(), "SnapshotMap") {
+						depth++
+					}
+				}
+			}
+		}
+		if depth >= 2 {
+			allPairs = p.InstrPos(in)
+		}
+	}
+	c.Check(allPairs == "", "WorkingMemory.IndexVariables / the index is not built by a text search of every variable in every node", p.Pos(fn.Pos()), "no strings.Contains inside two nested loops over the registries", "every variable's snapshot is searched in every expression's and atom's (strings.Contains at "+allPairs+" inside two nested loops over the registries): `rule R { when a[a[a[…1…]]] == 1 then x = 1; }` with 1000 nested selectors (3 KB) takes 37 s to build, 500 take 4.5 s, 2000 five minutes; the variables below a node can be collected from the node's children instead, which is what the text containment stands for (SNAP-6)")
 }
